@@ -452,3 +452,324 @@ theorem time_roundtrip_iff (ms : Nat) (rest : Bytes) (h : ms / 1000 < 256 ^ 8) :
     rw [this]
 
 end OpmVerif.Serial
+
+/-! ### PACK ∘ UNPACK = id on flat types: every accepted buffer is the image of its value -/
+
+namespace OpmVerif.Serial
+
+theorem takeN_ok {n : Nat} {bs h r : Bytes} (e : takeN n bs = .ok (h, r)) : h ++ r = bs ∧ h.length = n := by
+  unfold takeN at e
+  split at e
+  · injection e with e; injection e with e1 e2
+    subst e1; subst e2
+    rename_i hle
+    exact ⟨List.take_append_drop n bs, by simp [List.length_take]; omega⟩
+  · cases e
+
+theorem rdNat_ok {w : Nat} {bs r : Bytes} {n : Nat} (e : rdNat w bs = .ok (n, r)) :
+    le w n ++ r = bs ∧ n < 256 ^ w := by
+  unfold rdNat at e
+  cases hh : takeN w bs with
+  | error x => rw [hh] at e; cases e
+  | ok p =>
+    obtain ⟨h, r'⟩ := p
+    rw [hh] at e
+    simp only [] at e
+    injection e with e; injection e with e1 e2
+    subst e2
+    have := takeN_ok hh
+    rw [← e1, ← this.2, le_fromLE]
+    exact ⟨this.1, fromLE_lt h⟩
+
+theorem rdBool_ok {bs r : Bytes} {b : Bool} (e : rdBool bs = .ok (b, r)) : boolByte b :: r = bs := by
+  unfold rdBool at e
+  cases bs with
+  | nil => cases e
+  | cons x xs =>
+    simp only [] at e
+    split at e
+    · injection e with e; injection e with e1 e2; subst e1; subst e2; rename_i h; simp [boolByte, h]
+    · split at e
+      · injection e with e; injection e with e1 e2; subst e1; subst e2; rename_i h; simp [boolByte, h]
+      · cases e
+
+theorem rdBools_ok : ∀ (n : Nat) (bs r : Bytes) (l : List Bool), rdBools n bs = .ok (l, r) →
+    l.map boolByte ++ r = bs ∧ l.length = n
+  | 0, bs, r, l, e => by
+    simp only [rdBools] at e
+    injection e with e; injection e with e1 e2; subst e1; subst e2; simp
+  | n + 1, bs, r, l, e => by
+    simp only [rdBools] at e
+    cases h1 : rdBool bs with
+    | error x => rw [h1] at e; cases e
+    | ok p =>
+      obtain ⟨b, r1⟩ := p
+      rw [h1] at e; simp only [] at e
+      cases h2 : rdBools n r1 with
+      | error x => rw [h2] at e; cases e
+      | ok q =>
+        obtain ⟨l', r2⟩ := q
+        rw [h2] at e; simp only [] at e
+        injection e with e; injection e with e1 e2; subst e1; subst e2
+        have ih := rdBools_ok n r1 r2 l' h2
+        have hb := rdBool_ok h1
+        refine ⟨?_, by simp [ih.2]⟩
+        simp only [List.map_cons, List.cons_append]
+        rw [ih.1]; exact hb
+
+end OpmVerif.Serial
+
+namespace OpmVerif.Serial
+
+theorem unpackN_ok (f : Val → Bytes → Except Err (Val × Bytes)) (p : Val → Bytes) (P : Val → Prop) (d : Val)
+    (hf : ∀ tg bs v r, f tg bs = .ok (v, r) → p v ++ r = bs ∧ P v) :
+    ∀ (n : Nat) (tgs : List Val) (bs : Bytes) (vs : List Val) (r : Bytes), unpackN f d n tgs bs = .ok (vs, r) →
+      (vs.map p).flatten ++ r = bs ∧ vs.length = n ∧ ∀ v ∈ vs, P v
+  | 0, tgs, bs, vs, r, e => by
+    simp only [unpackN] at e
+    injection e with e; injection e with e1 e2; subst e1; subst e2; simp
+  | n + 1, tgs, bs, vs, r, e => by
+    simp only [unpackN] at e
+    cases h1 : f (tgs.headD d) bs with
+    | error x => rw [h1] at e; cases e
+    | ok q =>
+      obtain ⟨v, r1⟩ := q
+      rw [h1] at e; simp only [] at e
+      cases h2 : unpackN f d n tgs.tail r1 with
+      | error x => rw [h2] at e; cases e
+      | ok q2 =>
+        obtain ⟨vs', r2⟩ := q2
+        rw [h2] at e; simp only [] at e
+        injection e with e; injection e with e1 e2; subst e1; subst e2
+        have ih := unpackN_ok f p P d hf n tgs.tail r1 vs' r2 h2
+        have hv := hf _ _ _ _ h1
+        refine ⟨?_, by simp [ih.2.1], ?_⟩
+        · simp only [List.map_cons, List.flatten_cons, List.append_assoc]
+          rw [ih.1]; exact hv.1
+        · intro x hx
+          rcases List.mem_cons.1 hx with h | h
+          · subst h; exact hv.2
+          · exact ih.2.2 x h
+
+theorem lenOk_of_lt {n : Nat} (h : n < 256 ^ szSizeT) : lenOk n = true := (lenOk_iff n).2 h
+
+mutual
+theorem pack_unpack : ∀ (t : Ty) (tgt v : Val) (bs rest : Bytes), flat t = true →
+    unpack t tgt bs = .ok (v, rest) → pack t v ++ rest = bs ∧ wt t v = true
+  | .pod n, tgt, v, bs, rest, _, e => by
+    simp only [unpack] at e
+    cases h1 : takeN n bs with
+    | error x => rw [h1] at e; cases e
+    | ok q =>
+      obtain ⟨h, r⟩ := q
+      rw [h1] at e; simp only [] at e
+      injection e with e; injection e with e1 e2; subst e1; subst e2
+      have := takeN_ok h1
+      simp [pack, podBytes, wt, this.1, this.2]
+  | .int n, tgt, v, bs, rest, _, e => by
+    simp only [unpack] at e
+    cases h1 : takeN n bs with
+    | error x => rw [h1] at e; cases e
+    | ok q =>
+      obtain ⟨h, r⟩ := q
+      rw [h1] at e; simp only [] at e
+      injection e with e; injection e with e1 e2; subst e1; subst e2
+      have := takeN_ok h1
+      simp [pack, podBytes, wt, this.1, this.2]
+  | .str, tgt, v, bs, rest, _, e => by
+    simp only [unpack] at e
+    cases h1 : rdNat szSizeT bs with
+    | error x => rw [h1] at e; cases e
+    | ok q =>
+      obtain ⟨n, r⟩ := q
+      rw [h1] at e; simp only [] at e
+      cases h2 : takeN n r with
+      | error x => rw [h2] at e; cases e
+      | ok q2 =>
+        obtain ⟨h, r2⟩ := q2
+        rw [h2] at e; simp only [] at e
+        injection e with e; injection e with e1 e2; subst e1; subst e2
+        have a := rdNat_ok h1
+        have b := takeN_ok h2
+        refine ⟨?_, ?_⟩
+        · simp only [pack, strBytes_str, le64, List.append_assoc]
+          rw [b.2, b.1]; exact a.1
+        · simp only [wt]; rw [b.2]; exact lenOk_of_lt a.2
+  | .vecBool, tgt, v, bs, rest, _, e => by
+    simp only [unpack] at e
+    cases h1 : rdNat szSizeT bs with
+    | error x => rw [h1] at e; cases e
+    | ok q =>
+      obtain ⟨n, r⟩ := q
+      rw [h1] at e; simp only [] at e
+      cases h2 : rdBools n r with
+      | error x => rw [h2] at e; cases e
+      | ok q2 =>
+        obtain ⟨l, r2⟩ := q2
+        rw [h2] at e; simp only [] at e
+        injection e with e; injection e with e1 e2; subst e1; subst e2
+        have a := rdNat_ok h1
+        have b := rdBools_ok n r _ l h2
+        refine ⟨?_, ?_⟩
+        · simp only [pack, boolsOf_bools, le64, List.append_assoc]
+          rw [b.2, b.1]; exact a.1
+        · simp only [wt]; rw [b.2]; exact lenOk_of_lt a.2
+  | .vec t, tgt, v, bs, rest, hfl, e => by
+    simp only [flat] at hfl
+    simp only [unpack] at e
+    cases h1 : rdNat szSizeT bs with
+    | error x => rw [h1] at e; cases e
+    | ok q =>
+      obtain ⟨n, r⟩ := q
+      rw [h1] at e; simp only [] at e
+      cases h2 : unpackN (unpack t) (dflt t) n (elems tgt) r with
+      | error x => rw [h2] at e; cases e
+      | ok q2 =>
+        obtain ⟨vs, r2⟩ := q2
+        rw [h2] at e; simp only [] at e
+        injection e with e; injection e with e1 e2; subst e1; subst e2
+        have a := rdNat_ok h1
+        have b := unpackN_ok (unpack t) (pack t) (fun x => wt t x = true) (dflt t)
+          (fun tg bs v r hh => pack_unpack t tg v bs r hfl hh) n _ r vs _ h2
+        refine ⟨?_, ?_⟩
+        · simp only [pack, elems_list, le64, List.append_assoc]
+          rw [b.2.1, b.1]; exact a.1
+        · simp only [wt, Bool.and_eq_true, List.all_eq_true]
+          exact ⟨by rw [b.2.1]; exact lenOk_of_lt a.2, b.2.2⟩
+  | .arr k t, tgt, v, bs, rest, hfl, e => by
+    simp only [flat] at hfl
+    simp only [unpack] at e
+    cases h2 : unpackN (unpack t) (dflt t) k (elems tgt) bs with
+    | error x => rw [h2] at e; cases e
+    | ok q2 =>
+      obtain ⟨vs, r2⟩ := q2
+      rw [h2] at e; simp only [] at e
+      injection e with e; injection e with e1 e2; subst e1; subst e2
+      have b := unpackN_ok (unpack t) (pack t) (fun x => wt t x = true) (dflt t)
+        (fun tg bs v r hh => pack_unpack t tg v bs r hfl hh) k _ bs vs _ h2
+      refine ⟨?_, ?_⟩
+      · simp only [pack, elems_list]; exact b.1
+      · simp only [wt, Bool.and_eq_true, List.all_eq_true, decide_eq_true_eq]
+        exact ⟨b.2.1, b.2.2⟩
+  | .opt t, tgt, v, bs, rest, hfl, e => by
+    simp only [flat] at hfl
+    simp only [unpack] at e
+    cases h1 : rdBool bs with
+    | error x => rw [h1] at e; cases e
+    | ok q =>
+      obtain ⟨b, r⟩ := q
+      rw [h1] at e
+      have a := rdBool_ok h1
+      cases b with
+      | false =>
+        simp only [] at e
+        injection e with e; injection e with e1 e2; subst e1; subst e2
+        simp [pack, optOf_none, wt, a]
+      | true =>
+        simp only [] at e
+        cases h2 : unpack t (dflt t) r with
+        | error x => rw [h2] at e; cases e
+        | ok q2 =>
+          obtain ⟨x, r2⟩ := q2
+          rw [h2] at e; simp only [] at e
+          injection e with e; injection e with e1 e2; subst e1; subst e2
+          have ih := pack_unpack t (dflt t) x r _ hfl h2
+          refine ⟨?_, by simpa [wt] using ih.2⟩
+          simp only [pack, optOf_some, List.cons_append]
+          rw [ih.1]; exact a
+  | .uptr _, _, _, _, _, hfl, _ => by simp [flat] at hfl
+  | .set _ _, _, _, _, _, hfl, _ => by simp [flat] at hfl
+  | .map _ _ _, _, _, _, _, hfl, _ => by simp [flat] at hfl
+  | .tup ts, tgt, v, bs, rest, hfl, e => by
+    simp only [flat] at hfl
+    simp only [unpack] at e
+    cases h2 : unpacks ts (elems tgt) bs with
+    | error x => rw [h2] at e; cases e
+    | ok q2 =>
+      obtain ⟨vs, r2⟩ := q2
+      rw [h2] at e; simp only [] at e
+      injection e with e; injection e with e1 e2; subst e1; subst e2
+      have ih := packs_unpacks ts _ vs bs _ hfl h2
+      exact ⟨by simpa [pack, elems_list] using ih.1, by simpa [wt] using ih.2⟩
+  | .var ts, tgt, v, bs, rest, hfl, e => by
+    simp only [flat] at hfl
+    simp only [unpack] at e
+    cases h1 : rdNat szSizeT bs with
+    | error x => rw [h1] at e; cases e
+    | ok q =>
+      obtain ⟨i, r⟩ := q
+      rw [h1] at e; simp only [] at e
+      cases h2 : unpackAlt ts i r with
+      | error x => rw [h2] at e; cases e
+      | ok q2 =>
+        obtain ⟨x, r2⟩ := q2
+        rw [h2] at e; simp only [] at e
+        injection e with e; injection e with e1 e2; subst e1; subst e2
+        have a := rdNat_ok h1
+        have ih := packAlt_unpackAlt ts i x r _ hfl h2
+        refine ⟨?_, ?_⟩
+        · simp only [pack, altIdx_alt, altVal_alt, le64, List.append_assoc]
+          rw [ih.1]; exact a.1
+        · simp only [wt, Bool.and_eq_true]; exact ⟨lenOk_of_lt a.2, ih.2⟩
+  | .struct ts, tgt, v, bs, rest, hfl, e => by
+    simp only [flat] at hfl
+    simp only [unpack] at e
+    cases h2 : unpacks ts (elems tgt) bs with
+    | error x => rw [h2] at e; cases e
+    | ok q2 =>
+      obtain ⟨vs, r2⟩ := q2
+      rw [h2] at e; simp only [] at e
+      injection e with e; injection e with e1 e2; subst e1; subst e2
+      have ih := packs_unpacks ts _ vs bs _ hfl h2
+      exact ⟨by simpa [pack, elems_list] using ih.1, by simpa [wt] using ih.2⟩
+theorem packs_unpacks : ∀ (ts : List Ty) (tgs vs : List Val) (bs rest : Bytes), flats ts = true →
+    unpacks ts tgs bs = .ok (vs, rest) → packs ts vs ++ rest = bs ∧ wts ts vs = true
+  | [], tgs, vs, bs, rest, _, e => by
+    simp only [unpacks] at e
+    injection e with e; injection e with e1 e2; subst e1; subst e2
+    simp [packs, wts]
+  | t :: ts, tgs, vs, bs, rest, hfl, e => by
+    simp only [flats, Bool.and_eq_true] at hfl
+    simp only [unpacks] at e
+    cases h1 : unpack t (tgs.headD (dflt t)) bs with
+    | error x => rw [h1] at e; cases e
+    | ok q =>
+      obtain ⟨v, r⟩ := q
+      rw [h1] at e; simp only [] at e
+      cases h2 : unpacks ts tgs.tail r with
+      | error x => rw [h2] at e; cases e
+      | ok q2 =>
+        obtain ⟨vs', r2⟩ := q2
+        rw [h2] at e; simp only [] at e
+        injection e with e; injection e with e1 e2; subst e1; subst e2
+        have a := pack_unpack t _ v bs r hfl.1 h1
+        have b := packs_unpacks ts _ vs' r _ hfl.2 h2
+        refine ⟨?_, by simp [wts, a.2, b.2]⟩
+        simp only [packs, List.append_assoc]
+        rw [b.1]; exact a.1
+theorem packAlt_unpackAlt : ∀ (ts : List Ty) (i : Nat) (x : Val) (bs rest : Bytes), flats ts = true →
+    unpackAlt ts i bs = .ok (x, rest) → packAlt ts i x ++ rest = bs ∧ wtAlt ts i x = true
+  | [], _, _, _, _, _, e => by simp [unpackAlt] at e
+  | t :: _, 0, x, bs, rest, hfl, e => by
+    simp only [flats, Bool.and_eq_true] at hfl
+    simp only [unpackAlt] at e
+    have a := pack_unpack t _ x bs rest hfl.1 e
+    simpa [packAlt, wtAlt] using a
+  | _ :: ts, i + 1, x, bs, rest, hfl, e => by
+    simp only [flats, Bool.and_eq_true] at hfl
+    simp only [unpackAlt] at e
+    have a := packAlt_unpackAlt ts i x bs rest hfl.2 e
+    simpa [packAlt, wtAlt] using a
+end
+
+end OpmVerif.Serial
+
+namespace OpmVerif.Serial
+
+/-- UNPACK consumed exactly PACKSIZE bytes of whatever buffer it accepted (flat types). -/
+theorem unpack_consumed (t : Ty) (tgt v : Val) (bs rest : Bytes) (hfl : flat t = true)
+    (e : unpack t tgt bs = .ok (v, rest)) : bs.length = size t v + rest.length := by
+  have h := pack_unpack t tgt v bs rest hfl e
+  rw [← h.1, List.length_append, pack_length t v h.2]
+
+end OpmVerif.Serial
